@@ -217,6 +217,20 @@ def run(ctx):
     # ---- payload: the build_checkpoint_state call inside the checkpoint closure
     calls = [c for n in ast.walk(sample.node) for c in ([n] if isinstance(n, ast.Call) else [])
              if isinstance(c.func, ast.Attribute) and c.func.attr == "build_checkpoint_state"]
+    if len(calls) > 1:
+        # several payload builders: the one handed the loop-carried locals themselves is the regular checkpoint; any other one is handed values
+        # saved at some earlier point, while the payload's history is always a copy of the *live* history at the time of the call
+        R0 = roles(repo)
+        want_names = {R0.samples, R0.iterations, R0.beta, R0.min_step}
+        main = [c for c in calls if {a.id for a in list(c.args) + [k.value for k in c.keywords] if isinstance(a, ast.Name)} >= want_names]
+        for c in calls:
+            if c in main[:1]:
+                continue
+            ctx.refute("C11.state", sample.ident, loc_of(sample, c),
+                       "a second checkpoint payload is built from values other than the loop's current population / iteration / temperature / minimum step "
+                       f"({', '.join(ast.unparse(a)[:20] for a in c.args)}), but build_checkpoint_state copies the sampler's live history: taken part-way through an iteration, the payload says "
+                       "iteration k while its series already hold the entries of iteration k+1, and a run resumed from it records them a second time", disc="extra-payload")
+        calls = main[:1]
     if len(calls) != 1:
         ctx.unknown("C11.state", sample.ident, loc_of(sample), f"expected one build_checkpoint_state call, found {len(calls)}")
         return
@@ -232,6 +246,14 @@ def run(ctx):
     ev, ret = fold(repo, bcs, smc, max_depth=3, no_inline={"aspire.samplers.base:Sampler.config_dict"})
     payload = _dict_keys(ev, ret)
     ctx.count("payload_keys", len(payload))
+    # the history stored in the payload is the copy as taken: the payload builder removes / adds nothing afterwards (a "store it once" trim of
+    # the copy decides by counting entries which population the newest one is -- after the final enlargement it is not the one being checkpointed)
+    trims = [e_ for e_ in ev.events if e_.callee.startswith("method:") and e_.callee[7:] in ("append", "extend", "insert", "pop", "clear", "remove", "sort", "reverse") and e_.args
+             and any(x_ and x_[0] == "f" and (x_[1].endswith("deepcopy") or "_checkpoint_extra_state" in x_[1] or (x_[1] == "method:get" and len(x_[2]) > 1 and x_[2][1] == T.K("history"))) for x_ in T.subterms(e_.args[0]))]
+    ctx.decide(not trims, "C11.snapshot", bcs.ident, loc_of(bcs, trims[0].node if trims else None),
+               "the payload builder does not modify the history copy it stores",
+               (f"the payload builder applies {trims[0].callee[7:]}() to the history copy it is about to store ({T.show(trims[0].args[0])[-60:]}): the checkpoint's record is no longer the run's record at "
+                "that point, and what the restore puts back in its place need not be the entry that was removed") if trims else "", disc="copy-modified")
     sf_res = fold_sample(repo, resumed=True, final=False)
     lpr = sf_res.loop
     # locals are handed to the parameter of the same meaning (a swap pickles the wrong thing under the key)
@@ -366,6 +388,12 @@ def run(ctx):
         impl = [c_.resolve(nm_) for c_ in hist_classes if c_.resolve(nm_) is not None]
         if any(_mutates(f_) for f_ in impl):
             bad_calls.append((e_, nm_))
+    LIST_MUT = ("append", "extend", "insert", "pop", "clear", "remove", "sort", "reverse", "__setitem__", "__delitem__")
+    for e_ in evr.events:
+        if e_.callee.startswith("method:") and e_.callee[7:] in LIST_MUT and e_.args:
+            recv_ = e_.args[0]
+            if recv_[0] == "attr" and (recv_[1] == hval or recv_[1] == self_attr("history")):
+                bad_calls.append((e_, f"{recv_[2]}.{e_.callee[7:]}"))
     ctx.decide(not bad_calls, "C11.restore", rfc.ident, loc_of(rfc, bad_calls[0][0].node if bad_calls else None),
                "the restore calls no state-changing method on the restored history",
                (f"restore_from_checkpoint calls history.{bad_calls[0][1]}(...) on the restored history, a method that deletes or rewrites recorded entries: the run continues from a record "
